@@ -18,6 +18,7 @@ type LocalDB struct {
 	intx         bool
 	hasbegin     bool
 	kvs          []*types.KeyValue
+	kvsBegin     int // len(kvs) when the current transaction began
 	txid         *types.Int64
 	client       queue.Client
 	api          client.QueueProtocolAPI
@@ -84,6 +85,7 @@ func (l *LocalDB) Begin() {
 	l.keys = nil
 	l.txcache.Reset()
 	l.hasbegin = false
+	l.kvsBegin = len(l.kvs)
 }
 
 func (l *LocalDB) begin() {
@@ -107,6 +109,7 @@ func (l *LocalDB) save() error {
 			return err
 		}
 		l.kvs = nil
+		l.kvsBegin = 0
 	}
 	return nil
 }
@@ -147,6 +150,10 @@ func (l *LocalDB) Rollback() {
 		if err != nil {
 			panic(err)
 		}
+	}
+	// writes of this transaction that were buffered but not yet sent must not reach the next Commit or List
+	if l.intx && l.kvsBegin <= len(l.kvs) {
+		l.kvs = l.kvs[:l.kvsBegin]
 	}
 	l.resetTx()
 }
